@@ -320,12 +320,12 @@ def run_C04(run):
     stats = par([lambda m=m, fl=fl: run.build_trace("tr_C04", m, ["-DVT_NO_ASSERT"] + fl) for m, fl in cfgs])
     trace_cov(run, stats)
     gens = [os.path.join(run.dir, m + ".v") for m, _ in cfgs if os.path.exists(os.path.join(run.dir, m + ".v"))]
-    run.prove(gens, [], ["C04/P_C04_a.v", "C04/P_C04_euler.v", "C04/P_C04_wxyz.v", "C04/P_C04_axis.v", "C04/P_C04_cast.v", "C04/P_C04_aa.v", "C04/P_C04_two.v"], "C04/Properties_C04.v")
+    run.prove(gens, [], ["C04/P_C04_a.v", "C04/P_C04_euler.v", "C04/P_C04_wxyz.v", "C04/P_C04_axis.v", "C04/P_C04_cast.v", "C04/P_C04_aa.v", "C04/P_C04_two.v", "C04/P_C04_derived.v"], "C04/Properties_C04.v")
     fails = oracle_sweep(run, "C04", [("xyzw", []), ("wxyz", ["-DGLM_FORCE_QUAT_DATA_WXYZ"]), SIMD_AVX2, ("simd_sse2_wxyz", SIMD_SSE2[1] + ["-DGLM_FORCE_QUAT_DATA_WXYZ"])], run.tier)
     run.fails = run.triage(fails)
     run.assumptions = ["real-number semantics of the traced expressions (sin/cos real functions); no rounding bounds",
                        "partial: quat(eulerAngles q) and the extractEulerAngleABC round trips are NOT theorems; they are exercised by oracle_C04 (long-double references, unit quaternions near axes / w~0 / w~+-1 / gimbal poles / near-ties of the largest component) in both storage orders",
-                       "the WXYZ theorem is identity of the whole regenerated catalogue (76 entries, all decision trees) under -DGLM_FORCE_QUAT_DATA_WXYZ"]
+                       "the WXYZ theorem is identity of the whole regenerated catalogue (81 entries, all decision trees) under -DGLM_FORCE_QUAT_DATA_WXYZ"]
     return run.finish(TRUST_COMMON + ["oracle_C04.cpp (violation search; also the only check of the partial items above)"],
                       "theorems: all quaternion/vector/angle values symbolic; 6 two-axis and 12 three-axis Euler builders enumerated; oracle: 5 classes of unit quaternions x float/double x 2 storage orders",
                       CHECKER)
